@@ -473,6 +473,48 @@ func Check(env *core.Env, rep *core.Report) *core.Result {
 		}
 	})
 
+	// (B2) a task that was already run directly (its log is not empty) is then used by two stages with
+	// settings of their own, and run directly again: every run captures exactly its own output
+	for k := 0; k < 6; k++ {
+		o := newObs(false)
+		tr, _ := runner.NewTaskRunner()
+		tr.Stdout, tr.Stderr = ioutil.Discard, ioutil.Discard
+		prod := task.FromCommands(`echo "hello $WHO, a somewhat longer line than the next ones"`)
+		prod.Name = "prod"
+		prod.Env = variables.FromMap(map[string]string{"WHO": "direct", "VERIF_RUNID": o.id})
+		if err := tr.Run(prod); err != nil {
+			core.Broken("direct run: %v", err)
+		}
+		first := prod.Output()
+		outf := filepath.Join(env.Sub("c11d"), "seen")
+		cons := task.FromCommands(fmt.Sprintf(`printf %%s "$PROD_OUTPUT" > %s`, outf))
+		cons.Name = "cons"
+		cons.Env = variables.FromMap(map[string]string{"VERIF_RUNID": o.id})
+		s1 := &scheduler.Stage{Name: "s1", Task: prod, Env: variables.FromMap(map[string]string{"WHO": "one"})}
+		s2 := &scheduler.Stage{Name: "s2", Task: prod, DependsOn: []string{"s1"}, Env: variables.FromMap(map[string]string{"WHO": "two"})}
+		s3 := &scheduler.Stage{Name: "s3", Task: cons, DependsOn: []string{"s2"}}
+		g, err := scheduler.NewExecutionGraph(s1, s2, s3)
+		if err != nil {
+			core.Broken("graph: %v", err)
+		}
+		sd := scheduler.NewScheduler(tr)
+		sd.VerifSetPause(500 * time.Microsecond)
+		if err := sd.Schedule(g); err != nil {
+			add("capture:reuse:pipeline-failed", "a task run directly and then by two stages: the pipeline failed: "+err.Error(), nil)
+			o.close()
+			break
+		}
+		seen, _ := ioutil.ReadFile(outf)
+		got := []string{first, s1.Task.Output(), s2.Task.Output(), string(seen)}
+		want := []string{"hello direct, a somewhat longer line than the next ones\n", "hello one, a somewhat longer line than the next ones\n", "hello two, a somewhat longer line than the next ones\n", "hello two, a somewhat longer line than the next ones\n"}
+		atomic.AddInt64(&evals, 1)
+		o.close()
+		if strings.Join(got, "|") != strings.Join(want, "|") {
+			add("capture:reuse:outputs-of-different-runs-mixed", fmt.Sprintf("a task run directly, then by stages s1 and s2 (own env each), then read by a dependant: captured %q, expected %q", got, want), nil)
+			break
+		}
+	}
+
 	// (C) every dependency arrangement: every stage exports, every stage checks its ancestors;
 	// producers that run together store their outputs at the same moment
 	reps := 25
